@@ -121,7 +121,8 @@ def mk_ev(lo, hi, n, m, via=None, plain=False):
         else:
             ev.GetInverseImage(np.array(pt, dtype=np.double))
             ev.GetPreimages(list(pt))
-        ev.GetImage(0.3)
+        if (h // 50) % 2 == 0:
+            ev.GetImage(0.3)        # (otherwise the LAST thing the object did before the oracle uses it is an inverse query)
     # the caller's own bound arrays are reused for something else afterwards: the object must have kept copies
     lo_a += 17.25
     hi_a -= 3.5
